@@ -42,6 +42,8 @@ type Spec struct {
 	IndexCache          bool
 	NamespaceOffset     int
 	CompactL0OnClose    bool
+	ExternalMagic       uint16
+	ManifestRewriteAt   int // >0: rewrite the MANIFEST after this many deletions (default 10000)
 }
 
 // EncKey is the master key material (first EncKeyLen bytes are used).
@@ -114,6 +116,8 @@ func Gen(t *rapid.T, g GenCfg) Spec {
 	s.BlockCache = rapid.Bool().Draw(t, "blockcache") || s.Compression != 0 || s.EncKeyLen > 0
 	s.IndexCache = rapid.Bool().Draw(t, "indexcache") || s.EncKeyLen > 0
 	s.CompactL0OnClose = rapid.IntRange(0, 3).Draw(t, "l0onclose") == 0
+	s.ExternalMagic = rapid.SampledFrom([]uint16{0, 0, 7}).Draw(t, "extmagic")
+	s.ManifestRewriteAt = rapid.SampledFrom([]int{0, 0, 1, 4}).Draw(t, "manifestrewrite")
 	return s
 }
 
@@ -158,6 +162,7 @@ func (s Spec) Options(dir string) badger.Options {
 	o.CompactL0OnClose = s.CompactL0OnClose
 	o.MetricsEnabled = false
 	o.NamespaceOffset = s.NamespaceOffset
+	o.ExternalMagicVersion = s.ExternalMagic
 	o.BlockCacheSize, o.IndexCacheSize = 0, 0
 	if s.BlockCache || s.Compression != 0 || s.EncKeyLen > 0 {
 		o.BlockCacheSize = 1 << 20
@@ -179,10 +184,17 @@ func (s Spec) Open(dir string, mut func(*badger.Options)) (*badger.DB, error) {
 	if mut != nil {
 		mut(&o)
 	}
+	var db *badger.DB
+	var err error
 	if s.Managed {
-		return badger.OpenManaged(o)
+		db, err = badger.OpenManaged(o)
+	} else {
+		db, err = badger.Open(o)
 	}
-	return badger.Open(o)
+	if err == nil && s.ManifestRewriteAt > 0 && !o.ReadOnly {
+		db.VerifSetManifestRewriteThreshold(s.ManifestRewriteAt)
+	}
+	return db, err
 }
 
 // Flush rotates the active memtable (if non-empty) and waits for the flush queue to drain.
